@@ -215,7 +215,14 @@ impl Entry {
         // available (i.e. `Some(..)`) and they must be the same before we can merge the two
         // entries. Otherwise, `self.name` and `entry.name` will be `None` in which case we're also
         // allowed to merge the two entries (if their values are equivalent of course).
-        equiv_data(&self.value, &entry.value) && self.name == entry.name
+        //
+        // `equiv_data` does not look at paddings, so two entries with equivalent data can still
+        // serialize differently (e.g. a tuple `(0u64, 5u64)` and an enum value whose tag is `0` and
+        // whose `u64` payload `5` is left-padded to the size of the largest variant). Entries can
+        // only share storage if they occupy exactly the same bytes.
+        equiv_data(&self.value, &entry.value)
+            && self.name == entry.name
+            && self.to_bytes() == entry.to_bytes()
     }
 }
 
